@@ -4,7 +4,7 @@
     process). *)
 From Coq Require Import String.
 From TP Require Import Model.Prelude Extracted Model.Toxics Model.Timed Proofs.GoArith Proofs.SlicerProofs Proofs.StageContract Proofs.C07Proofs
-     Model.Json Model.Api Model.Collection Proofs.C04Proofs.
+     Model.Json Model.Api Model.Collection Proofs.C04Proofs Model.Reconf Proofs.LinkInv Proofs.ReconfInv Proofs.ReconfRunProofs.
 
 (** every built-in toxic, EVERY attribute value (any int64: negative, zero, extreme), every chunk,
     every draw of the random source, every interrupt: no transition of a stage panics or diverges.
@@ -87,3 +87,31 @@ Print Assumptions C07_api_total.
 Theorem C07_api_body_read_is_bounded : 0 < api_body_read_deadline_ns <= 30000000000.
 Proof. unfold api_body_read_deadline_ns. lia. Qed.
 Print Assumptions C07_api_body_read_is_bounded.
+
+(** attribute updates race with the stages that read the attributes: UpdateToxicJson writes the
+    new values into the shared toxic object and only then interrupts the stages. Whatever state a
+    stage is in at that moment, and whatever the new values of the same toxic type are, the stage
+    stays well-formed and its next timer or interrupt transition does not panic or diverge (input
+    and send-completion transitions of a well-formed state are covered above). The premise is the
+    regenerated fact that the bandwidth toxic cuts an instalment with the rate its loop test read. *)
+Theorem C07_attribute_update_never_crashes_a_stage : forall (old new : toxic) (st : lstate) now,
+  bw_cut_uses_tested_rate = true -> same_kind old new = true -> wf old st ->
+  wf new st /\ mode_of (on_timer new now st) <> MDead /\ mode_of (on_interrupt now st) <> MDead.
+Proof. exact attribute_write_is_harmless. Qed.
+Print Assumptions C07_attribute_update_never_crashes_a_stage.
+
+Theorem C07_bandwidth_cuts_with_the_tested_rate : bw_cut_uses_tested_rate = true.
+Proof. reflexivity. Qed.
+Print Assumptions C07_bandwidth_cuts_with_the_tested_rate.
+
+(** finding F13, pinned to the arithmetic of the tree before the repair (the cut re-read t.Rate):
+    a 250-byte chunk tested against rate 1, the rate raised to 1000 while the 100 ms timer runs - the
+    cut p.Data[:100000] leaves the chunk and the stage panics; with the tested rate it does not *)
+Theorem C07_rate_update_race_refuted_pinned :
+  let p := mkChunk (repeat 7 250) 0 in
+  wf (TBandwidth 1) (BwInst p 1 0 100000000) /\
+  same_kind (TBandwidth 1) (TBandwidth 1000) = true /\
+  mode_of (on_timer_gen false (TBandwidth 1000) 100000000 (BwInst p 1 0 100000000)) = MDead /\
+  mode_of (on_timer_gen true (TBandwidth 1000) 100000000 (BwInst p 1 0 100000000)) <> MDead.
+Proof. exact rate_update_race_pinned. Qed.
+Print Assumptions C07_rate_update_race_refuted_pinned.
